@@ -111,8 +111,10 @@ fn jaspar_header(rec: &RecordModel) -> String {
     }
 }
 
-pub const N_STYLES_JASPAR: usize = 3;
-pub const N_STYLES_JASPAR16: usize = 3;
+/// styles 3..=8 repeat the three layouts with one blank line / whitespace-only lines after the LAST record of the file
+pub const N_STYLES_JASPAR: usize = 9;
+/// styles 3..=8: as for raw JASPAR
+pub const N_STYLES_JASPAR16: usize = 9;
 /// styles 4..=7 repeat the four layouts with the counts written in exponent notation without a fractional part
 /// (`1e3`, `9.9999e4`, `0e0`: what `printf("%g")`-style writers emit for round or rescaled values)
 pub const N_STYLES_TRANSFAC: usize = 8;
@@ -314,6 +316,20 @@ pub fn write_file(fmt: Fmt, recs: &[RecordModel], vv: bool, crlf: bool) -> Vec<u
             Fmt::Uniprobe => write_uniprobe(&mut out, r, eol),
         }
     }
+    // JASPAR files: nothing / one blank line / whitespace-only lines after the last record (by its style)
+    if matches!(fmt, Fmt::Jaspar | Fmt::Jaspar16) {
+        if let Some(last) = recs.last() {
+            match (last.style / 3) % 3 {
+                1 => push_line(&mut out, "", eol),
+                2 => {
+                    push_line(&mut out, "", eol);
+                    push_line(&mut out, "  ", eol);
+                    push_line(&mut out, "", eol);
+                }
+                _ => {}
+            }
+        }
+    }
     out
 }
 
@@ -454,7 +470,7 @@ pub fn build_records(spec: &GenSpec) -> Vec<RecordModel> {
                     let ac = format!("M{:05}", r);
                     let id = [format!("V$AP4_{:02}", r), format!("prodoric_MX{:06}", r), format!("F$MATA1_{}", r)][v].clone();
                     let na = ["AP-4", "MATa1", "Pax-6 paired domain"][v].to_string();
-                    let de = ["activator protein 4", "MA0001.2 AGL3 ; From JASPAR", "x"][v].to_string();
+                    let de = ["activator protein 4", "MA0001.2 AGL3 ; From JASPAR", "see also http://example.org//"][v].to_string();
                     (
                         if mask & 2 != 0 { Some(id) } else { None },
                         if mask & 1 != 0 { Some(ac) } else { None },
